@@ -103,7 +103,12 @@ def output_token(token, out: OutputStream, config: Config):
         quote = '"' if token.quote == 'double' else '\''
         out.push_string(''.join((quote, token.value, quote)))
     elif isinstance(token, tokens.Field):
-        out.push_field(token.index, token.name)
+        if token.index is not None:
+            out.push_field(token.index, token.name)
+        elif token.name:
+            # Not a tabstop but a variable reference like `${foo}`:
+            # there’s no index to give to field callback, output its name
+            out.push(token.name)
     elif isinstance(token, FunctionCall):
         out.push(token.name + '(')
         for i, arg in enumerate(token.arguments):
